@@ -95,7 +95,8 @@ MANIFEST = dict(
           "Failing-input search over all 34 functions of distance3d.distance with an independent definition-level "
           "oracle for C10 (finite d >= 0, returned points members of their primitives within 1e-9*L, "
           "| |p1-p2| - d | <= 1e-6*L, d = 0 => points coincide; no exception, hang or NaN) on lattice-degenerate and "
-          "general placements of well-formed primitives; recorded defects are replayed on every run."),
+          "general placements of well-formed primitives; recorded defects are replayed on every run. " 
+          "Link theorems (regenerated from today's source by py2lean on every run, D3/Gen/Link10*.lean) tie _point_to_line, point_to_line, point_to_line_segment, _line_to_line, _point_to_plane, point_to_plane, _line_to_plane, hesse_normal_form, convert_segment_to_line, line_from_pluecker to the model (rfl / unfold-split-rfl; division guards of the model as explicit hypotheses). "),
     note=("trusted: Lean kernel + Mathlib, axioms propext/Classical.choice/Quot.sound; exact-real semantics (float "
           "rounding not modelled: the conditioning findings are rounding effects); hand-written model + correspondence "
           "harness (sampling); 22 of the 34 functions are covered by the search oracle only in this vertical. "
@@ -103,7 +104,7 @@ MANIFEST = dict(
           "inputs; known defects are listed in known_findings.d/C10.json and only failures inside their narrowly "
           "defined input class carry the finding id."),
     technique=("Lean 4 proof on hand-written model (line/plane family) + correspondence (Float/Rat model vs code); "
-               "definition-level oracle + lattice/general failing-input search on the real code (all 34 functions)"),
+               "definition-level oracle + lattice/general failing-input search on the real code (all 34 functions) + py2lean-regenerated kernels linked to the model by theorem"),
     design="§7 C10")
 
 TOL_MEMBER = 1e-9
